@@ -211,12 +211,37 @@ def provoke_failure(ctx, decoder, msg):
 def run(ctx):
     from pybufrkit.decoder import Decoder
     decoder = Decoder()
+    from mon.gen.templates import scoped as _scoped
+    decc0 = Decoder(compiled_template_cache_max=3)
+    D33s = cases.tables(33)[1]
     for name, msg in cases.shape_cases(ctx):
         if ctx.counters.get('shape_cases_compared', 0) % 4 == 1:
             provoke_failure(ctx, decoder, msg)
         compare_case(ctx, decoder, msg, 'shape', name)
+        if _scoped(msg.ids, D33s):
+            # (the mandatory shapes - operators, markers, bitmaps - through a decoder with template compilation on as well)
+            ctx.count('compiling_decoder_cases')
+            compare_case(ctx, decc0, msg, 'compiling-decoder', name)
         ctx.count('shape_cases_compared')
         ctx.add('shapes', name)
+    # several marker operators in one subset whose operator context differs from marker to marker (C08's shapes), through the
+    # compiling decoder and the plain one: FM-94 values for every marker
+    try:
+        from mon.checks.c08 import EXTRA_SHAPES, AssignPolicy
+        B33m, D33m = cases.tables(33)
+        for si, (name, ids) in enumerate(EXTRA_SHAPES):
+            if not name.startswith('marker') or not ctx.mine(si) or not _scoped(ids, D33m):
+                continue
+            for comp in (False, True):
+                try:
+                    msg = R.build_message(ids, B33m, D33m, AssignPolicy(ctx.rng, [2], [0], phase=si), 2, comp, 4)
+                except R.Unsupported:
+                    continue
+                ctx.count('compiling_decoder_cases')
+                compare_case(ctx, decc0, msg, 'compiling-decoder', name)
+                compare_case(ctx, decoder, msg, 'shape', name)
+    except ImportError:
+        pass
     for bi, (name, msg) in enumerate(cases.big_cases(ctx.rng)):
         if ctx.mine(bi):
             compare_case(ctx, decoder, msg, 'big', name)
